@@ -141,12 +141,12 @@ fn plan(p: &mut Plan<'_>) {
             let clauses = if p.ctx.prop == "C07" { journalsim::C07_CLAUSES } else { journalsim::C10_CLAUSES };
             p.part(journalsim::JournalSim { clauses }, 600_000, 20_000_000, "two-endpoint journal simulation: packet assemblies (built, trivial, abandoned) through drop/dup/reorder channels, receiver ACK generation at drawn capacities, acks / loss reports / fast retransmit / expiry on the virtual clock; non-trivial = some fault fired and packets were received and acknowledged; distinct = hash of the event history");
             if p.ctx.prop == "C07" {
-                p.part(netsim::NetSim { mode: netsim::Mode::C07 }, 400, 40_000, "whole-stack share: C02-style client/server runs (loss, duplication, reordering, delay, corruption, black holes, PTO probes, retransmission, closing) with a capturing event log on both endpoints; per connection object and packet-number space the numbers of the packets that leave the endpoint, in assembly order, must strictly increase and never repeat (0-RTT and 1-RTT share a space); non-trivial = a fault fired and the handshake or a stream progressed; distinct = hash of wire + application trace");
+                p.part(netsim::NetSim { mode: netsim::Mode::C07 }, 400, 20_000, "whole-stack share: C02-style client/server runs (loss, duplication, reordering, delay, corruption, black holes, PTO probes, retransmission, closing) with a capturing event log on both endpoints; per connection object and packet-number space the numbers of the packets that leave the endpoint, in assembly order, must strictly increase and never repeat (0-RTT and 1-RTT share a space); non-trivial = a fault fired and the handshake or a stream progressed; distinct = hash of wire + application trace");
             }
             p.assumptions = vec!["frames are u32 tags", "abandonment only before anything is recorded (the only one reachable through PacketWriter)", "gen_ack largest is a received, still tracked packet number", "a packet declared lost whose expiry passed may be forgotten by the journal"];
         }
         "C02" => {
-            p.part(netsim::NetSim { mode: netsim::Mode::C02 }, 4000, 150_000, "full client/server runs over SimNet with a seeded fault tape (bounded = survivable, liveness judged; unbounded = safety + bounded failure); non-trivial = a fault fired and the handshake or some stream made progress; distinct = hash of the wire trace and application event trace");
+            p.part(netsim::NetSim { mode: netsim::Mode::C02 }, 4000, 60_000, "full client/server runs over SimNet with a seeded fault tape (bounded = survivable, liveness judged; unbounded = safety + bounded failure); non-trivial = a fault fired and the handshake or some stream made progress; distinct = hash of the wire trace and application event trace");
             p.assumptions = vec!["TLS key material is not seeded (Ed25519 chain keeps message sizes fixed)", "single-threaded seeded executor: task order is permuted, polls never run truly concurrently"];
         }
         "C06" => {
@@ -155,17 +155,17 @@ fn plan(p: &mut Plan<'_>) {
             p.assumptions = vec!["netsim share: the stack never initiates key updates and always uses 8-byte connection ids, hence the component run", "frame equality in the netsim share is judged on kind and the fields both vantage points log", "component run: 0-RTT keys are not produced; a key generation two or more behind the receiver may be discarded (RFC 9001 6.5)"];
         }
         "C15" => {
-            p.part(netsim::NetSim { mode: netsim::Mode::C15 }, 700, 40_000, "whole-stack runs biased to the unvalidated phase: RSA chain (first server flight > 3x1200 bytes), client second-flight loss/truncation/duplication so the server retransmits while unvalidated; the network's per-address byte ledger is checked after every server send until the server first processes a Handshake packet; non-trivial = a fault fired and handshake progressed; distinct = trace hash");
+            p.part(netsim::NetSim { mode: netsim::Mode::C15 }, 700, 20_000, "whole-stack runs biased to the unvalidated phase: RSA chain (first server flight > 3x1200 bytes), client second-flight loss/truncation/duplication so the server retransmits while unvalidated; the network's per-address byte ledger is checked after every server send until the server first processes a Handshake packet; non-trivial = a fault fired and handshake progressed; distinct = trace hash");
             p.part(netsim::aasim::AaSim, 300_000, 30_000_000, "component run: one real AntiAmplifier<3> with its ArcSendWaker under generated histories of packet arrivals (sizes 0..1452), send bursts of 1..5 datagrams each cut to the credit read for it (bytes fed back per datagram, or per burst as Path::send_packets does), grants, aborts and a send task parking on CREDIT; after every credit read balance() is compared with the signed model 3*received - sent (exact while the contract is kept), an overdrawn burst must not wrap into an unlimited allowance, and a parked task must be woken by arrival / grant / abort; non-trivial = datagrams were sent and more than one packet arrived; distinct = hash of the op/result history");
             p.part(netsim::pathsim::PathSim, 30_000, 3_000_000, "component run: one real qconnection Path over an I/O that swallows what is sent, built as a probed (peer-opened) path: its real validate() task on the paused clock, packet arrivals, sends cut to the credit and charged through Path::send_packets, PATH_RESPONSE frames that echo the outstanding challenge / carry random data / are one bit off, time advancing past the probe timeouts, a send task parked on CREDIT; observed through hook H4; reference: validated iff a matching response arrived while validation ran, credit 3*received - sent until then, unlimited and parked sender woken afterwards; non-trivial = validation started and packets arrived; distinct = hash of the op/validated history");
             p.assumptions = vec!["bytes delivered to the server's socket from the client address are an upper bound of what the server may count as received", "validation instant = the server's first packet_received qlog event of type handshake", "component run: grant and abort are first-one-wins, as the type documents"];
         }
         "C17" => {
-            p.part(netsim::NetSim { mode: netsim::Mode::C17 }, 1200, 80_000, "whole-stack runs with a close event at a drawn virtual time (local close, peer close, both in the same millisecond, idle expiry with drawn timeouts incl. 0, path loss by blackhole) while drawn operations are parked (accept, open-until-blocked, datagram recv, handshaked, terminated) and streams are mid-transfer; completion times on the virtual clock, state order and silence after closing from qlog; non-trivial = a close/idle/path-loss event happened with operations parked; distinct = trace hash");
+            p.part(netsim::NetSim { mode: netsim::Mode::C17 }, 1200, 40_000, "whole-stack runs with a close event at a drawn virtual time (local close, peer close, both in the same millisecond, idle expiry with drawn timeouts incl. 0, path loss by blackhole) while drawn operations are parked (accept, open-until-blocked, datagram recv, handshaked, terminated) and streams are mid-transfer; completion times on the virtual clock, state order and silence after closing from qlog; non-trivial = a close/idle/path-loss event happened with operations parked; distinct = trace hash");
             p.assumptions = vec!["release bound after termination: 1 s + 6 RTT of virtual time", "idle clauses only on fault-free runs; the endpoint terminating first is judged against the negotiated timeout"];
         }
         "C19" => {
-            p.part(netsim::NetSim { mode: netsim::Mode::C19 }, 1000, 40_000, "whole-stack runs in which both applications send unreliable datagrams of sizes around the peer's max_datagram_frame_size (0 = disabled, 1, 2, 100, 1200, 65535) under loss or loss-free; refusal rule, payload integrity (no merge/alter), order among delivered, and on loss-free uncongested runs every accepted datagram must reach the peer; non-trivial = datagrams were accepted; distinct = trace hash");
+            p.part(netsim::NetSim { mode: netsim::Mode::C19 }, 1000, 20_000, "whole-stack runs in which both applications send unreliable datagrams of sizes around the peer's max_datagram_frame_size (0 = disabled, 1, 2, 100, 1200, 65535) under loss or loss-free; refusal rule, payload integrity (no merge/alter), order among delivered, and on loss-free uncongested runs every accepted datagram must reach the peer; non-trivial = datagrams were accepted; distinct = trace hash");
             p.part(streamsim::dgram::DgramSim, 200_000, 6_000_000, "component run: two real DatagramFlows built as the connection builds them; the simulator plays the applications (send / send_bytes of sizes around the peer's limit and the varint boundaries 63/64 and 16383/16384; recv / read / read_buf), the packet assembler (remaining room around the datagram size, other frames loaded first, repeated loading into one packet) and the network (loss, delay) plus a hostile peer (frames at / over the local maximum in both encodings) and connection errors; every packet is decoded by the real FrameReader; reference = FIFO of byte vectors per direction + RFC 9221 size rule; non-trivial = a packet was lost or delayed and a datagram was read; distinct = hash of the op/result history");
             p.assumptions = vec!["RFC 9221: max_datagram_frame_size bounds the whole frame (type, length, payload); the smallest encoding of a payload of n bytes is n+1", "an assembler offering at least payload+9 bytes of room must get the head datagram (any encoding fits); between payload+1 and payload+8 either answer is accepted", "network reordering is modelled as delay: the reader must return datagrams in arrival order"];
         }
